@@ -323,6 +323,7 @@ pub fn run_batch<C: Check>(check: &C, cfg: &BatchCfg) -> BatchOutcome {
         xor_hash: 0,
     });
     let total_chunks = cfg.runs.div_ceil(chunk);
+    let known = Known::load();
 
     std::thread::scope(|scope| {
         for _ in 0..cfg.workers.max(1) {
@@ -362,9 +363,12 @@ pub fn run_batch<C: Check>(check: &C, cfg: &BatchCfg) -> BatchOutcome {
                             let h = r.fingerprint & mask;
                             bitmap[(h >> 6) as usize].fetch_or(1 << (h & 63), Ordering::Relaxed);
                         }
-                        if r.violation.is_some() {
+                        if let Some(v) = &r.violation {
                             violating.push(i);
-                            min_violation.fetch_min(i, Ordering::Relaxed);
+                            // a listed known finding recognisable on the raw case does not end the search
+                            if !known.matches(check.id(), &check.finding_key(&case, v)) {
+                                min_violation.fetch_min(i, Ordering::Relaxed);
+                            }
                         }
                     }
                     if cfg.budget_s > 0.0 && start.elapsed().as_secs_f64() > cfg.budget_s {
@@ -403,22 +407,33 @@ pub fn run_batch<C: Check>(check: &C, cfg: &BatchCfg) -> BatchOutcome {
 
     // Triage violations in index order.
     sh.violating.sort();
-    let known = Known::load();
     let mut known_lines = vec![];
     let mut violations = 0u64;
-    for &i in sh.violating.iter().take(20) {
+    let mut known_runs = 0u64;
+    let triage_cap = 5000;
+    let mut unrepro: Vec<u64> = vec![];
+    let mut unrepro_child: Vec<String> = vec![];
+    for &i in sh.violating.iter().take(triage_cap) {
         let mut rng = Rng::new(run_seed(cfg.seed, check.id(), i));
         let case = check.generate(&mut rng);
         let mut st = Stats::default();
         let r = execute_guarded(check, &case, &mut st);
         let Some(v0) = r.violation else {
-            out_lines.push(format!(
-                "HARNESS-ERROR property={} run {i} violated in the batch but not when re-executed (nondeterministic harness)",
-                check.id()
-            ));
-            violations += 1;
-            std::process::exit(flush_and_code(&out_lines, 2));
+            // the outcome of run i depended on what the worker thread had executed before it:
+            // not replayable on its own; look for a self-contained violating run instead
+            unrepro.push(i);
+            continue;
         };
+        // a finding key that is already recognisable on the raw case needs no minimisation
+        let raw_key = check.finding_key(&case, &v0);
+        if known.matches(check.id(), &raw_key) {
+            let line = format!("KNOWN-FINDING: property={} {}", check.id(), raw_key);
+            if !known_lines.contains(&line) {
+                known_lines.push(line);
+            }
+            known_runs += 1;
+            continue;
+        }
         let (min_case, v, execs) = minimise(check, &case, &v0.oracle);
         let key = check.finding_key(&min_case, &v);
         if known.matches(check.id(), &key) {
@@ -426,20 +441,14 @@ pub fn run_batch<C: Check>(check: &C, cfg: &BatchCfg) -> BatchOutcome {
             if !known_lines.contains(&line) {
                 known_lines.push(line);
             }
+            known_runs += 1;
             continue;
         }
         let note = format!("minimised with {execs} re-executions from run {i}");
         let path = write_replay(check, cfg.seed, i, &min_case, &v, &note);
-        match confirm_in_child(&path, &v.oracle) {
-            Ok(()) => {}
-            Err(e) => {
-                out_lines.push(format!(
-                    "HARNESS-ERROR property={} replay {} did not reproduce in a fresh process: {e}",
-                    check.id(),
-                    path.display()
-                ));
-                std::process::exit(flush_and_code(&out_lines, 2));
-            }
+        if let Err(e) = confirm_in_child(&path, &v.oracle) {
+            unrepro_child.push(format!("{} ({e})", path.display()));
+            continue;
         }
         out_lines.push(format!(
             "violation detail: oracle={} {} | minimised case: {}",
@@ -451,12 +460,26 @@ pub fn run_batch<C: Check>(check: &C, cfg: &BatchCfg) -> BatchOutcome {
         violations += 1;
         break; // first (lowest index) unknown violation is the one reported
     }
-    if violations == 0 && sh.violating.len() > 20 && known_lines.len() < sh.violating.len() {
-        // more violating runs than were triaged individually; all triaged ones were known
+    if violations == 0 && sh.violating.len() > triage_cap {
         out_lines.push(format!(
-            "note: {} violating runs, first 20 triaged individually (all matched known findings)",
-            sh.violating.len()
+            "note: {} violating runs, only the first {} (lowest indices) were triaged individually; all of those matched known findings",
+            sh.violating.len(),
+            triage_cap
         ));
+    }
+    if violations == 0 && (!unrepro.is_empty() || !unrepro_child.is_empty()) {
+        out_lines.push(format!(
+            "HARNESS-ERROR property={} {} violating run(s) did not reproduce when re-executed alone (first: {:?}) and {} replay file(s) did not reproduce in a fresh process {:?}: run outcomes depend on process history",
+            check.id(),
+            unrepro.len(),
+            unrepro.first(),
+            unrepro_child.len(),
+            unrepro_child.first()
+        ));
+        std::process::exit(flush_and_code(&out_lines, 2));
+    }
+    if known_runs > 0 {
+        out_lines.push(format!("note: {known_runs} run(s) hit listed known findings"));
     }
     for l in &known_lines {
         out_lines.push(l.clone());
